@@ -1000,3 +1000,21 @@ Proof.
 Qed.
 Lemma ent_lt_trans ents i j k : ent_lt ents i j = true -> ent_lt ents j k = true -> ent_lt ents i k = true.
 Proof. unfold ent_lt. apply cfb_less_trans. Qed.
+
+(* ================================================================== statements about the source as read by srcgen *)
+Lemma rb_as_coded_valid : rb_new_node_red = true -> rb_root_blackened = true ->
+  forall (A : Type) (lt : A -> A -> bool) l, rb_valid A (insert_all A lt rb_new_node_red rb_root_blackened l).
+Proof. intros -> -> A lt l. apply rb_insert_all_valid. Qed.
+Lemma rb_as_coded_refuted : rb_new_node_red = false ->
+  exists l : list Z, ~ rb_valid Z (insert_all Z Z.ltb rb_new_node_red rb_root_blackened l).
+Proof.
+  intros H. exists [0; 1; 2]. intros Hv. apply rb_ok_iff in Hv. revert H Hv. vm_compute. congruence.
+Qed.
+Lemma rebuilt_tree_valid ents files :
+  pairwise_cmp Z (ent_lt ents) (rev files) ->
+  let t := insert_all Z (ent_lt ents) true true files in
+  bst_b Z (ent_lt ents) t = true /\ rb_ok Z t = true /\ Permutation (elements Z t) files.
+Proof.
+  intros Hp t. destruct (insert_all_sound Z (ent_lt ents) (ent_lt_trans ents) true true files Hp) as [B P].
+  split; [apply bst_b_iff; exact B|]. split; [apply rb_ok_iff; apply rb_insert_all_valid | exact P].
+Qed.
